@@ -120,6 +120,22 @@ PROPS = {
             "note": "Trusted: the canonical writer in mon/c11.rs (about 100 lines) and the harness UTC provider.",
         },
     },
+    "C12": {
+        "builds": ["chk"],
+        "rule": ("strings x 11 parsers (PlainDate, PlainDateTime, PlainTime, PlainYearMonth, PlainMonthDay, Instant, ZonedDateTime over offset zones/UTC, Duration, MonthCode, UtcOffset, Calendar): ~190 type-rule "
+                 "probes; every single-character deletion/insertion/substitution (29-symbol alphabet) of 8 canonical strings (complete, ~11 000 strings); grammar-directed generated strings in every syntactic "
+                 "variant (extended/basic, T/t/space, ./, fractions of 1-9 digits, second 60, offsets +-HH / +-HHMM / +-HH:MM / +-HH:MM:SS(.fff) / Z / z, zone and calendar annotations with and without !, unknown and "
+                 "duplicate annotations, signed six-digit years, short year-month / month-day / time forms, ISO 8601 durations), their single and double mutations and arbitrary strings over the alphabet. "
+                 "The grammar model is three-valued; undecided strings are counted per reason and not judged. non-trivial = every judged (string, goal) pair; distinct by string fingerprint"),
+        "assumptions": ["refmodel::grammar is the oracle (hand-written from the specification's productions; checked against a table of examples in its unit test)",
+                        "zoned strings over named zones other than UTC, bare times that also read as year-month/month-day, full dates with a non-ISO calendar for year-month/month-day, UTC offset strings with a seconds part and Calendar::from_str on non date-time strings are undecided",
+                        "disagreements on strings whose annotation / offset punctuation is lexically peculiar are keyed by that peculiarity (the lexer is the ixdtf dependency's) independent of the goal"],
+        "manifest": {
+            "technique": "runtime monitoring: independent grammar recogniser/evaluator as oracle over grammar-directed strings, exhaustive single-character mutations and random strings",
+            "text": "Every observed parse outcome (accepted value, or RangeError) of the eleven string parsers is compared with a clean-room recogniser and evaluator of the Temporal ISO 8601 / RFC 9557 grammar including the per-type rules (Z on plain types, required offset/zone, critical and duplicate annotations, fraction length, negative zero year, ISO-only year-month/month-day short forms, date validity, range limits). The accept/reject frontier around valid strings is explored by complete single-character mutation of canonical strings plus random mutation; strings the model cannot decide are counted, not judged.",
+            "note": "Trusted: refmodel::grammar. Known lexer deviations of the ixdtf dependency are listed in KNOWN_FINDINGS.txt keyed by lexical feature.",
+        },
+    },
     "C17": {
         "builds": ["chk", "rel"],
         "rule": ("receivers (C04 hostile dates, random times) x every subset of supplied fields (PlainDate/PlainYearMonth: year, month, monthCode, day = 16 subsets; PlainTime 64 subsets; "
